@@ -185,6 +185,7 @@ Inductive ecls :=
 | EDefaultBadValue | EJsonConflict | EEnumJsonConflict | EClosedEnumImplicit | EDefaultImplicit
 | EMapEnumFirstZero
 | EExtDeclReserved | EExtDeclName | EExtDeclType | EExtDeclRepeated | EExtDeclMissing | EExtDeclBad
+| ECompilerPanic   (* the compile of the file was aborted by a panic: nothing is reported for it *)
 | EOther.
 
 Definition ecls_num (e : ecls) : N :=
@@ -207,7 +208,7 @@ Definition ecls_num (e : ecls) : N :=
   | EDefaultMessage => 58 | EDefaultBadValue => 59 | EJsonConflict => 60 | EEnumJsonConflict => 61
   | EClosedEnumImplicit => 62 | EDefaultImplicit => 63 | EMapEnumFirstZero => 64
   | EExtDeclReserved => 65 | EExtDeclName => 66 | EExtDeclType => 67 | EExtDeclRepeated => 68
-  | EExtDeclMissing => 69 | EExtDeclBad => 70 | EOther => 0
+  | EExtDeclMissing => 69 | EExtDeclBad => 70 | ECompilerPanic => 71 | EOther => 0
   end%N.
 Definition ecls_eqb (a b : ecls) : bool := N.eqb (ecls_num a) (ecls_num b).
 
